@@ -159,7 +159,17 @@ def builder_spec(rnd, choice=None, kind=None):
                    hourly_usage_journey_starts=["h", [rnd.choice([3, 10, 41.5, 0]) for _ in range(12)], "2025-01-01T00:00:00", "dimensionless"])
     O["up1"] = obj("UsagePattern", usage_journey=["ref", "uj1"], network=["ref", "n0"], country=["ref", "c0"], devices=["refs", ["d0"]],
                    hourly_usage_journey_starts=["h", [rnd.choice([1, 2, 7.5]) for _ in range(9)], "2025-01-01T05:00:00", "dimensionless"])
-    O["system"] = {"cls": "System", "params": {"usage_patterns": ["refs", ["up0", "up1"]]}}
+    # a second video service with other parameters (a job can be re-pointed to it), a second streaming job with the SAME resolution
+    # as the first, and a pattern on its own network whose journey runs service jobs only
+    O["video2"] = obj("VideoStreaming", server=["ref", "srv0"], bits_per_pixel=q(0.2, "dimensionless"), ram_buffer_per_user=q(80, "MB"),
+                      static_delivery_cpu_cost=q(2.5, "cpu_core * s / GB"), base_ram_consumption=q(1, "GB"))
+    O["jvid2"] = obj("VideoStreamingJob", service=["ref", "video2"], resolution=["s", res], video_duration=q(30, "min"), refresh_rate=q(30, "1/s"))
+    O["s3"] = obj("UsageJourneyStep", user_time_spent=q(10, "min"), jobs=["refs", ["jvid", "jvid2", "jgen"]])
+    O["uj2"] = obj("UsageJourney", uj_steps=["refs", ["s3"]])
+    O["n1"] = obj("Network", bandwidth_energy_intensity=q(0.12, "kWh/GB"))
+    O["up2"] = obj("UsagePattern", usage_journey=["ref", "uj2"], network=["ref", "n1"], country=["ref", "c0"], devices=["refs", ["d0"]],
+                   hourly_usage_journey_starts=["h", [rnd.choice([1, 2, 4.5]) for _ in range(8)], "2025-01-01T02:00:00", "dimensionless"])
+    O["system"] = {"cls": "System", "params": {"usage_patterns": ["refs", ["up0", "up1", "up2"]]}}
     return {"objects": O, "system": "system"}
 
 
@@ -319,9 +329,14 @@ def builder_edit(rnd, spec):
     D = _data()
     O = spec["objects"]
     k = rnd.choice(["resolution", "refresh", "duration", "bpp", "technology", "use_case", "tokens", "model", "instance", "bits_per_param", "cpu_cost",
-                    "model", "instance", "technology"])
+                    "model", "instance", "technology", "job_service", "resolution2", "job_service"])
     S = lambda o, a, v: {"op": "set", "obj": o, "attr": a, "value": v, "kind": "builder_" + k}
     if k == "resolution": return S("jvid", "resolution", ["s", rnd.choice(RESOLUTIONS)])
+    if k == "resolution2" and "jvid2" in O: return S("jvid2", "resolution", ["s", rnd.choice(RESOLUTIONS)])
+    if k == "job_service" and "video2" in O:
+        j = rnd.choice(["jvid", "jvid2"])
+        cur = O[j]["params"]["service"][1]
+        return S(j, "service", ["ref", "video2" if cur == "video" else "video"])
     if k == "refresh": return S("jvid", "refresh_rate", ["q", rnd.choice([24, 30, 50, 60]), "1/s"])
     if k == "duration": return S("jvid", "video_duration", ["q", rnd.choice([10, 45, 61, 137]), "min"])
     if k == "bpp": return S("video", "bits_per_pixel", ["q", rnd.choice([0.05, 0.1, 0.2]), "dimensionless"])
